@@ -18,7 +18,8 @@ import (
 //   - FlattenRich: a flattened child holding every scalar kind, optional / repeated / map fields,
 //     plain and annotated nested messages, enums with and without custom values, a Timestamp;
 //   - FlattenOneofChild: a flattened child with a oneof; FlattenBoolMap: one with map<bool,_>;
-//     FlattenCustom: one whose type has its own generated MarshalJSON;
+//     FlattenCustom: one whose type has its own generated MarshalJSON; FlattenSame: a flatten field
+//     without prefix named like one of its child's members;
 //   - OneofFlat / OneofNest: a discriminated oneof (flattened / nested) whose variants are an
 //     EMPTY message, one with single-word field names only, one with multi-word names and one
 //     with its own generated MarshalJSON (plus a scalar member when nested);
@@ -94,6 +95,9 @@ func GenCodecFile(r *R, idx int) *ir.File {
 	msg("FlattenOneofChild", fld("title", "string"), flat(mf("inner", "RichO"), Pick(r, []string{"", "in_"})))
 	msg("FlattenBoolMap", fld("title", "string"), flat(mf("inner", "BoolKeys"), "b_"))
 	msg("FlattenCustom", fld("title", "string"), flat(mf("num", "Int64Child"), Pick(r, []string{"", "n_"})))
+	// a flatten field WITHOUT prefix whose child has a member named like the field itself
+	// (`Addr street` / `string street`): the promoted member takes the place of the nested key
+	msg("FlattenSame", fld("title", "string"), flat(mf("street", "Addr"), ""))
 
 	// oneof variants
 	msg("Gone")
